@@ -156,7 +156,7 @@ func c13PositiveWhole(r *big.Rat) bool { return r.Sign() > 0 && r.IsInt() }
 //   last        batch-cpu 1000 + batch-memory 1Gi in the last app container
 //   zero        batch-cpu 0 and batch-memory 0 (declared, amount zero: nothing is requested)
 //   limit-only  batch-cpu 1000 only in limits (not producible behind the API server's defaulting; diagnostic only)
-//   init        batch-cpu 1000 in requests+limits of an init container only (thorough)
+//   init        batch-cpu 1000 in requests+limits of an init container only
 func c13BatchRequested(b string) bool {
 	switch b {
 	case "cpu", "mem", "last", "init":
@@ -503,10 +503,7 @@ func TestVerifC13Validating(t *testing.T) {
 
 	prios := c13PrioValues()
 	shapes := c13Shapes(env.Thorough())
-	batches := []string{"none", "cpu", "mem", "last", "zero", "limit-only"}
-	if env.Thorough() {
-		batches = append(batches, "init")
-	}
+	batches := []string{"none", "cpu", "mem", "last", "zero", "limit-only", "init"} // "init" in both tiers since seed C13-4
 	assumptions := []string{
 		"the priority class of a pod is the koordinator priority-class label when present, else the class whose range contains spec.priority (ranges read from extension.Priority*Value{Min,Max})",
 		"'requests a batch resource' = a positive batch-cpu/batch-memory amount in some container's requests; an entry only in limits is not producible behind the API server's defaulting and is judged as diagnostic only",
